@@ -145,8 +145,8 @@ Theorem C09_no_gift_leak : forall ops,
 Proof. exact no_gift_leak. Qed.
 Print Assumptions C09_no_gift_leak.
 
-(* the counting invariant does not depend on how freeYourReferenceTracker deletes the import-table entry: the candidate
-   repair of D16 (deletion by identity) leaves every C09 statement intact *)
+(* the counting invariant does not depend on how freeYourReferenceTracker deletes the import-table entry: the
+   repair of D16 (deletion by identity, ab72d65) left every C09 statement intact *)
 Theorem C09_count_invariant_any_deletion_rule : forall k ops c,
   let s := run_k k init ops in
   rc (o_tab (ow s)) c = recv_sum (h_trk (hd s)) c + inflight (ch_oh s) c + decs (ch_ho s) c + cnt (leaked s) c.
